@@ -142,6 +142,8 @@ CATALOGUE = [
     ("C16", "c16-restore-keys-only", SL, "                k: (saved_signal_refs[k] if k in iteration_locals else v)\n", "                k: v\n", 1, "fire", "outer ASTLowerer.signal_refs value back"),
     ("C01", "c01-literal-zero", EL, "            ref = self.ir_builder.const(output_type, const_value, expr)\n        else:\n            ref = self.ir_builder.arithmetic(\"+\", value_ref, 0, output_type, expr)", "            ref = self.ir_builder.const(output_type, const_value, expr)\n        else:\n            ref = self.ir_builder.const(output_type, 0, expr)", 1, "fire", "C01-R8"),
     ("C20", "c20-no-repoint-cse", "dsl_compiler/cli.py", "        repoint_signal_refs(lowerer.signal_refs, cse.replacements)\n", "", 1, "fire", "C20-R6"),
+    ("C06", "c06-inline-output", EP, "        if (getattr(usage, \"debug_metadata\", None) or {}).get(\"is_output\"):\n            return None\n", "", 1, "fire", "is_output"),
+    ("C13", "c13-raw-bundle-keys", EP, "                signals={\n                    self.signal_analyzer.get_signal_name(name): value\n                    for name, value in op.signals.items()\n                },\n", "                signals=op.signals,\n", 1, "fire", "C13-R4"),
     ("C19", "c19-dict-order-from-set", CP, "merge_list = sorted(source_merge_edges.keys())", "merge_list = list(source_merge_edges)", 1, "fire", "C19-R1"),
 ]
 
